@@ -132,6 +132,8 @@ def run(F, R):
             hs = [x for x in walk(t) if x[0] == "call" and x[1].endswith("GUID::new")]
             if len(hs) == 1 and base is None:
                 base = hs[0]
+    if base is None:
+        R.inconclusive("C10-R2", "session-guid", "the check's session GUID (GUID::new() passed to session_id in the check flow) was not found")
     if R.floor("C10-R2", "session_id applications", len(sid_nodes), 3) and base is not None:
         site = [x.idx for x in S.nodes if x.ctx is hdr and x.bi == base[3]]
         R.check("C10-R2", "session-created-once", site and site[0] not in L and not any(site[0] in L_ for L_ in comps), "the session GUID is created once, outside any loop", "the session GUID is created inside a loop")
